@@ -1,15 +1,15 @@
 (* C09 — a parser's answers do not depend on what it was asked before.  Property theorems only.
 
    Model.C09ParserState: the parsers of one process as a state machine over the state the real objects carry
-   between calls (pending --print_config request, stored argv, the lazily added --print_shtab action per root
-   parser; the context variables parse_kwargs / subclass_arg_parser / dump_kwargs and the class-level dict of the
+   between calls (pending --print_config request, stored argv, the lazily added --print_shtab action and the
+   sub_add_kwargs["default"] of a dataclass-typed option per root parser; the context variables parse_kwargs / subclass_arg_parser / dump_kwargs and the class-level dict of the
    class help action per process).  step fx Ds s o = (state after, answer) of call o (on parser op_p o) in state s,
    for declarations Ds; init n = n freshly built parsers in a fresh process; run = fold of step over a history.
-   fx : fixes says which of the three proposed repairs the tree contains (pinned = none, the tree as given).
+   fx : fixes says which of the four repairs the tree contains (pinned = none; three of them have landed in /repo).
 
    FULL STATEMENT (DESIGN 5.9)            history_independent fx :=
        forall Ds n ops o, snd (step fx Ds (run fx Ds (init n) ops) o) = snd (step fx Ds (init n) o)
-   It is FALSE of the pinned tree in exactly three ways (C09_*_refuted, each replayed on the implementation by the
+   It is FALSE of the pinned tree in exactly four ways (C09_*_refuted, each replayed on the implementation by the
    correspondence run and listed in known_findings/C09.txt) and TRUE of the repaired tree
    (C09_repaired_history_independent). *)
 From JV Require Import Lib.Base Model.C09ParserState Proofs.C09Proofs.
@@ -25,7 +25,8 @@ From JV Require Import Lib.Base Model.C09ParserState Proofs.C09Proofs.
    The guard (the same function the judge evaluates, v_class) excludes only:
      1  a --print_config request is pending on the parser called,
      2  the call names the key print_shtab and the parser called has acquired the --print_shtab action,
-     3  the call asks for a class help and the class-level `skip` entry has been written. *)
+     3  the call asks for a class help and the class-level `skip` entry has been written,
+     4  the call gives (part of) a value for the dataclass option d and the action of d holds a stored default. *)
 Theorem C09_guarded_answer_is_fresh_answer :
   forall fx Ds n s o, in_guard fx s o = true -> snd (step fx Ds s o) = snd (step fx Ds (init n) o).
 Proof. exact guarded_state_independent. Qed.
@@ -56,6 +57,7 @@ Theorem C09_class_needs_missing_repair :
     | 1%N => fx_pc fx = false
     | 2%N => fx_sh fx = false
     | 3%N => fx_hs fx = false
+    | 4%N => fx_dd fx = false
     | _ => True
     end.
 Proof. exact class_needs_missing_repair. Qed.
@@ -63,7 +65,7 @@ Print Assumptions C09_class_needs_missing_repair.
 
 (* ---------- the repaired tree: the FULL statement, no guard ---------- *)
 Theorem C09_repaired_history_independent :
-  forall fx, fx_pc fx = true -> fx_sh fx = true -> fx_hs fx = true -> history_independent fx.
+  forall fx, fx_pc fx = true -> fx_sh fx = true -> fx_hs fx = true -> fx_dd fx = true -> history_independent fx.
 Proof. exact repaired_is_history_independent. Qed.
 Print Assumptions C09_repaired_history_independent.
 
@@ -72,6 +74,11 @@ Theorem C09_repair_pc_nothing_pending :
   forall fx Ds ops s, fx_pc fx = true -> no_pending s -> no_pending (run fx Ds s ops).
 Proof. exact run_no_pending. Qed.
 Print Assumptions C09_repair_pc_nothing_pending.
+
+Theorem C09_repair_dd_nothing_stored :
+  forall fx Ds ops s, fx_dd fx = true -> no_ddef s -> no_ddef (run fx Ds s ops).
+Proof. exact run_no_ddef. Qed.
+Print Assumptions C09_repair_dd_nothing_stored.
 
 Theorem C09_repair_hs_class_dict_never_written :
   forall fx Ds ops s, fx_hs fx = true -> st_help_skip (run fx Ds s ops) = st_help_skip s.
@@ -92,7 +99,12 @@ Definition s_fit : str := [102;105;116]%N.
 Definition s_lr : str := [108;114]%N.
 
 Definition pd_plain (cls : list copt) : pdecl :=
-  {| pd_cfg := true; pd_opts := [(s_k, KInt); (s_s, KStr)]; pd_req := []; pd_cls := cls |}.
+  {| pd_cfg := true; pd_opts := [(s_k, KInt); (s_s, KStr)]; pd_req := []; pd_cls := cls; pd_dc := false |}.
+Definition d_dc : decl :=
+  {| d_root := {| pd_cfg := true; pd_opts := [(s_k, KInt); (s_s, KStr)]; pd_req := []; pd_cls := []; pd_dc := true |};
+     d_subreq := false; d_subs := [] |}.
+Definition s_da : str := [100;46;97]%N.
+Definition s_db : str := [100;46;98]%N.
 Definition d_plain : decl := {| d_root := pd_plain []; d_subreq := false; d_subs := [] |}.
 Definition d_cb : decl :=
   {| d_root := pd_plain [{| co_name := s_cb; co_callable := true |}]; d_subreq := false; d_subs := [] |}.
@@ -100,7 +112,7 @@ Definition d_model : decl :=
   {| d_root := pd_plain [{| co_name := s_model; co_callable := false |}]; d_subreq := false; d_subs := [] |}.
 Definition d_sub : decl :=
   {| d_root := pd_plain []; d_subreq := false;
-     d_subs := [(s_fit, {| pd_cfg := true; pd_opts := [(s_lr, KInt)]; pd_req := []; pd_cls := [] |})] |}.
+     d_subs := [(s_fit, {| pd_cfg := true; pd_opts := [(s_lr, KInt)]; pd_req := []; pd_cls := []; pd_dc := false |})] |}.
 Definition call (p : nat) (k : opk) : op := {| op_p := p; op_k := k |}.
 
 (* 1  p.parse_args(['--print_config','--k=bad']) fails and leaves the request; p.parse_args([]) then prints the
@@ -109,8 +121,8 @@ Theorem C09_print_config_pending_refuted :
   exists Ds n ops o,
     snd (step pinned Ds (run pinned Ds (init n) ops) o) <> snd (step pinned Ds (init n) o) /\
     guard_class pinned (run pinned Ds (init n) ops) o = 1%N /\
-    snd (step pinned Ds (run pinned Ds (init n) ops) o) = OPrint None no_flags false /\
-    snd (step pinned Ds (init n) o) = OOk false.
+    snd (step pinned Ds (run pinned Ds (init n) ops) o) = OPrint None no_flags false None /\
+    snd (step pinned Ds (init n) o) = OOk false None.
 Proof.
   exists [d_plain; d_plain], 2%nat, [call 0 (PArgs [TFlag s_print_config; TOpt s_k s_bad])], (call 0 (PArgs [])).
   vm_compute. repeat split; discriminate.
@@ -124,7 +136,7 @@ Theorem C09_print_config_broken_refuted :
   exists Ds n ops o,
     guard_class pinned (run pinned Ds (init n) ops) o = 1%N /\
     snd (step pinned Ds (run pinned Ds (init n) ops) o) = OErr EBroken /\
-    snd (step pinned Ds (init n) o) = OOk false.
+    snd (step pinned Ds (init n) o) = OOk false None.
 Proof.
   exists [d_sub], 1%nat,
          [call 0 (PArgs [TPos s_fit; TFlag s_print_config; TOpt s_lr s_bad]); call 0 (PArgs [])],
@@ -139,7 +151,7 @@ Theorem C09_lazy_print_shtab_key_refuted :
   exists Ds n ops o,
     snd (step pinned Ds (run pinned Ds (init n) ops) o) <> snd (step pinned Ds (init n) o) /\
     guard_class pinned (run pinned Ds (init n) ops) o = 2%N /\
-    snd (step pinned Ds (run pinned Ds (init n) ops) o) = OOk true /\
+    snd (step pinned Ds (run pinned Ds (init n) ops) o) = OOk true None /\
     snd (step pinned Ds (init n) o) = OErr (EUnknown s_print_shtab).
 Proof.
   exists [d_plain; d_plain], 2%nat, [call 0 (PArgs [TOpt s_k s_2])],
@@ -163,6 +175,34 @@ Proof.
 Qed.
 Print Assumptions C09_class_help_skip_shared_refuted.
 
+(* 4  p.parse_args(['--d.a=3']) on a parser whose option d : Optional[Data] comes from a signature leaves
+      Namespace(a=3, b=0) in the action's sub_add_kwargs["default"]; p.parse_args(['--d.b=2']) then returns
+      d = (a=3, b=2) where a fresh parser returns (a=0, b=2)                      (key dataclass-default-carried) *)
+Theorem C09_dataclass_default_carried_refuted :
+  exists Ds n ops o,
+    snd (step pinned Ds (run pinned Ds (init n) ops) o) <> snd (step pinned Ds (init n) o) /\
+    guard_class pinned (run pinned Ds (init n) ops) o = 4%N /\
+    snd (step pinned Ds (run pinned Ds (init n) ops) o) = OOk false (Some (s_3, s_2)) /\
+    snd (step pinned Ds (init n) o) = OOk false (Some (s_0, s_2)).
+Proof.
+  exists [d_dc; d_plain], 2%nat, [call 0 (PArgs [TOpt s_da s_3])], (call 0 (PArgs [TOpt s_db s_2])).
+  vm_compute. repeat split; discriminate.
+Qed.
+Print Assumptions C09_dataclass_default_carried_refuted.
+
+(* 4' also a FAILING call leaves it (the second field is set on the object stored by then), and validate(cfg)
+      stores the d of its argument *)
+Theorem C09_dataclass_default_after_failure_refuted :
+  exists Ds n ops o,
+    guard_class pinned (run pinned Ds (init n) ops) o = 4%N /\
+    snd (step pinned Ds (run pinned Ds (init n) ops) o) = OOk false (Some (s_3, s_2)) /\
+    snd (step pinned Ds (init n) o) = OOk false (Some (s_3, s_0)).
+Proof.
+  exists [d_dc], 1%nat, [call 0 (PArgs [TOpt s_da s_2; TOpt s_db s_2; TOpt s_k s_bad])], (call 0 (PObject [(s_d, [51;44]%N)])).
+  vm_compute. repeat split.
+Qed.
+Print Assumptions C09_dataclass_default_after_failure_refuted.
+
 Theorem C09_full_statement_refuted_on_pinned_tree : ~ history_independent pinned.
 Proof.
   intro H.
@@ -181,26 +221,28 @@ Definition h_example : list op :=
     call 0 (PArgs [TOpt s_k s_bad]);
     call 0 (PArgs [TFlag s_help]);
     call 1 (PArgs [TFlag s_print_config; TOpt s_k s_bad]);
-    call 0 (Dump false true false false) ].
+    call 0 (Dump None false true false false) ].
 Example C09_guard_satisfiable :
   let s := run pinned [d_sub; d_plain] (init 2) h_example in
   let o := call 0 (PArgs [TPos s_fit; TOpt s_lr s_3]) in
   in_guard pinned s o = true /\
   s <> init 2 /\ ps_shtab (get_ps s 0) = true /\ ps_pending (get_ps s 1) = PFull None no_flags /\
   st_dk s = Some (false, true) /\
-  snd (step pinned [d_sub; d_plain] s o) = OOk false /\
+  snd (step pinned [d_sub; d_plain] s o) = OOk false None /\
   map (fun p => snd (step pinned [d_sub; d_plain] (run pinned [d_sub; d_plain] (init 2) (firstn p h_example))
                        (nth p h_example o)))
       [0; 1; 2; 3; 4]%nat
-  = [OPrint None no_flags false; OErr EPre; OHelp []; OErr EPre; OOk false].
+  = [OPrint None no_flags false None; OErr EPre; OHelp []; OErr EPre; OOk false None].
 Proof. vm_compute. repeat split. discriminate. Qed.
 Print Assumptions C09_guard_satisfiable.
 
 (* the premises of the repaired theorem are met by `repaired`, and there the three witnesses answer like fresh *)
 Example C09_repaired_example :
-  fx_pc repaired = true /\ fx_sh repaired = true /\ fx_hs repaired = true /\
+  fx_pc repaired = true /\ fx_sh repaired = true /\ fx_hs repaired = true /\ fx_dd repaired = true /\
+  snd (step repaired [d_dc] (run repaired [d_dc] (init 1) [call 0 (PArgs [TOpt s_da s_3])])
+         (call 0 (PArgs [TOpt s_db s_2]))) = OOk false (Some (s_0, s_2)) /\
   snd (step repaired [d_plain] (run repaired [d_plain] (init 1) [call 0 (PArgs [TFlag s_print_config; TOpt s_k s_bad])])
-         (call 0 (PArgs []))) = OOk false /\
+         (call 0 (PArgs []))) = OOk false None /\
   snd (step repaired [d_plain] (run repaired [d_plain] (init 1) [call 0 (PArgs [TOpt s_k s_2])])
          (call 0 (PObject [(s_k, s_3); (s_print_shtab, s_bash)]))) = OErr (EUnknown s_print_shtab) /\
   snd (step repaired [d_cb; d_model] (run repaired [d_cb; d_model] (init 2) [call 0 (PArgs [TOpt s_cb_help s_SubA])])
